@@ -416,6 +416,9 @@ class Runner:
                     at = 2 if max((sum(k) for k in m), default=0) <= 55 else 1  # (1 cannot tell a power from another)
                     res = p(*([numpy.int64(at) if idx % 2 else at] * nv))
                     scalar_want = sum(c * at ** sum(k) for k, c in m.items())
+                    if sum(abs(c) * at ** sum(k) for k, c in m.items()) >= 2 ** 62:
+                        self.bump("undecided:coefficient-would-overflow-int64")
+                        return
                 elif kind == "evalpart":
                     kept_top = max((k[i] for k in m for i in range(nv) if i not in st["vars"]), default=0)
                     if not st.get("vars") or kept_top > (20 if retaining else 600):
